@@ -6,14 +6,17 @@ from tokutil import *  # noqa
 from protocol import from_real
 
 ID = "C03"
-LEAN_MODULE = ["SCoda.Props.C01"]
+LEAN_MODULE = ["SCoda.Props.C01", "SCoda.Props.C01b", "SCoda.Props.C10"]
 CLAUSES = [
     ("two consecutive calls threading the state emit (notes and bar ends) exactly what one call on the joined events emits; "
      "by induction every grouping of consecutive whole-bar chunks does",
      ["SCoda.C01.chunked", "SCoda.C01.specLog_append_partial", "SCoda.C01.sim_partial"]),
     ("the simulation holds from an arbitrary related start state (the carried state dictionary), across signature changes and empty chunks",
      ["SCoda.C01.sim_partial", "SCoda.C01.applyRest_sync"]),
-    ("the n-chunk statement as one theorem (induction over the chunk list) and the glue Bar.to_sequence ∘ sequences_split_bars yields whole-bar chunks", None),
+    ("any number of consecutive calls threading the state: the concatenated stream makes the detokeniser emit exactly the specification log of the whole piece "
+     "(chunk i laid at the clock its call starts from)", ["SCoda.C01.chunked_n"]),
+    ("glue: a bar produced by sequences_split_bars lasts exactly its signature's length (so chunks of bars are whole bars)", ["SCoda.C10.bar_duration"]),
+    ("glue: a call on whole bars ends exactly that many ticks later (the padded bar's INTERNAL cap drives the clock to the bar line)", None),
 ]
 RULE = ("valid pieces (1-3 tracks, 2-6 bars, signature changes, empty bars) split into bars by sequences_split_bars, regrouped "
         "by random partitions (thorough: all 2^(bars-1) partitions up to 6 bars) x sampled configurations; "
